@@ -49,6 +49,8 @@ def gen_cases(rng, tier, info):
         h.reopen()
         h.obs()
         cases.append(Case("keys-%d" % j, h.cmds))
+    for name, h in G.scenario_histories(rng):
+        cases.append(Case("scn-" + name, h.cmds))
     # null / empty-string key parts: the format has one value for both, so they must collide as keys
     fam = 0
     for first, second in ((None, ""), ("", None), (None, None), ("", "")):
